@@ -414,6 +414,19 @@ def run_shard(ctx):
         o = _S()
         o.entries = ents
         rel, kinds, ok = draw(relabel(o))
+        if draw(st.booleans()):
+            # a per-chain shift that reverses which of the two chains carries the larger numbers
+            ra = [a for a in pdbio.atoms_of(rel)]
+            first = ra[0].chain
+            na = [a.resnum for a in ra if a.chain == first]
+            nb = [a.resnum for a in ra if a.chain != first]
+            if na and nb:
+                d = (min(na) - 5 - max(nb)) if min(nb) > max(na) else (max(na) + 5 - min(nb))
+                if -999 <= min(nb) + d and max(nb) + d <= 9999:
+                    for a in ra:
+                        if a.chain != first:
+                            a.resnum += d
+                    kinds = kinds + ["reverse-number-order"]
         return sa, pdbio.write(ents), pdbio.write(rel), kinds, ok, "%s-%s" % tuple(sorted((ta, tb)))
 
     def contact_body(t):
